@@ -91,10 +91,21 @@ fn batch_perm_opt(multi: bool, n: usize, seed: u64, content: u32, prior: usize, 
                 for i in 0..prior_size { $place(&mut $env, i, Side::Bid, 1 + (i + s) as u32 % 3, 10 + (i as u32 % 5)); }
                 $env.step(&mut rng0);
             }
+            // content 4: every odd instruction cancels an order that was placed and cancelled in EARLIER steps (a stale instruction)
+            // (one such order per odd instruction, so that the instructions of the batch stay distinguishable)
+            let mut stale = Vec::new();
+            if content == 4 {
+                for i in 0..n { let (id, _) = $place(&mut $env, i, Side::Bid, 1, 5); stale.push(id); }
+                $env.step(&mut rng0);
+                for id in stale.iter() { let _ = $cancel(&mut $env, *id); }
+                $env.step(&mut rng0);
+            }
             let mut expect = Vec::new();
             let mut last = None;
             for i in 0..n {
-                if content >= 2 && i % 2 == 1 {
+                if content == 4 && i % 2 == 1 {
+                    expect.push($cancel(&mut $env, stale[i]));
+                } else if content >= 2 && content < 4 && i % 2 == 1 {
                     let id = last.unwrap();
                     if content == 2 { expect.push($cancel(&mut $env, id)); } else { expect.push($modify(&mut $env, id, 300 + i as u32)); }
                 } else {
@@ -339,13 +350,15 @@ fn main() {
                     "modifies of orders created in the same step", "after 1 step of the same batch size", "after 3 steps of the same batch size",
                     "after 2 steps of another batch size", "same-step cancels after 2 steps of the same batch size",
                     "trading disabled", "trading disabled, after 1 step", "another assignment of instructions to assets", "every instruction on asset 1",
-                    "step size 2", "start time 12345", "market orders", "market orders, trading disabled, step size 2"];
+                    "step size 2", "start time 12345", "market orders", "market orders, trading disabled, step size 2",
+                    "cancellations of an order closed in an earlier step"];
                 let perms = vec![batch_perm(multi, n, seed, 0, 0, 0), batch_perm(multi, n, seed, 0, 0, 0), batch_perm(multi, n, seed, 1, 0, 0),
                     batch_perm(multi, n, seed, 2, 0, 0), batch_perm(multi, n, seed, 3, 0, 0), batch_perm(multi, n, seed, 0, 1, n),
                     batch_perm(multi, n, seed, 1, 3, n), batch_perm(multi, n, seed, 0, 2, n + 1), batch_perm(multi, n, seed, 2, 2, n),
                     batch_perm_opt(multi, n, seed, 0, 0, 0, 1), batch_perm_opt(multi, n, seed, 1, 1, n, 1), batch_perm_opt(multi, n, seed, 0, 0, 0, 2),
                     batch_perm_opt(multi, n, seed, 0, 0, 0, 4), batch_perm_opt(multi, n, seed, 0, 0, 0, 8), batch_perm_opt(multi, n, seed, 0, 0, 0, 16),
-                    batch_perm_opt(multi, n, seed, 0, 0, 0, 32), batch_perm_opt(multi, n, seed, 0, 0, 0, 1 | 8 | 32)];
+                    batch_perm_opt(multi, n, seed, 0, 0, 0, 32), batch_perm_opt(multi, n, seed, 0, 0, 0, 1 | 8 | 32),
+                    batch_perm(multi, n, seed, 4, 0, 0)];
                 emit(json!({"kind": "det2", "env": if multi { "menv" } else { "env" }, "n": n, "seed": seed.to_string(), "labels": labels, "perms": perms}), &mut f);
             }
         }
